@@ -337,3 +337,50 @@ def ob_pratt(r, tier, seed, shape):
 def obligations_c11_parser():
     shapes = ['xbxbx', 'pxbx', 'xbpx', 'pxbxbx', 'xbpxbx', 'ppx', 'xbxbxbx']
     return [Ob('O11.2-group-' + s_, 'operator grouping on shape ' + ' '.join(s_), ob_pratt, ('quick', 'thorough'), 3 if len(s_) < 7 else 10, dict(shape=list(s_))) for s_ in shapes]
+
+# ----------------------------------------------------------------------------- O12.5 parser::parse hands its input to the lexer verbatim and the tree covers all of it
+def ob_parse_entry(r, tier, seed):
+    pw = PW(); W = pw.W
+    inputs = ['ab', ' ab', '﻿ab', 'ab\n', '\r\nab', '﻿', '']
+    r.bounds = 'parser::parse on the input texts %s; lexer::lex replaced by an environment that returns ONE token per character of whatever text it is given (kinds Ident / Whitespace / Error)' % [repr(s_) for s_ in inputs]
+    r.assumptions = ['the logos-generated lexer is outside E2\'s reach; the stub stands for any lexer that tiles the text it receives (the real one is checked for tiling in O12.1/O12.2 for its hand-written part only)',
+                     'oracle: the texts of the tokens in the tree, concatenated, equal the input passed to parse - nothing is stripped or normalised before lexing - and the root range is the whole input']
+    cur = {}
+    def stub_lex(ex, a):
+        s_ = ex.deref(a[0]); text = ms.pystr(s_); cur['lexed'] = text
+        toks = []; pos = 0
+        for ch in text:
+            k = 'Whitespace' if ch in ' \n\r\t' else ('Ident' if ch.isalnum() else 'Error'); n = len(ch.encode())
+            toks.append(Agg(pw.TOK.key, 0, [Agg(pw.TK.key, pw.TK.vindex(k), []), mkstr(ch), Agg('TextRange', 0, [pos, pos + n])])); pos += n
+        return PyVec(toks)
+    W.stubs['lex'] = stub_lex
+    def entry(ex):
+        text = ex.choose([(True, s_) for s_ in inputs])
+        h = {0: Opaque('path'), 1: mkstr(text)}
+        res = ex.call('parser::parse', [Ref(h, 0), Ref(h, 1)], 'parser') if False else ex.call('parse', [Ref(h, 0), Ref(h, 1)], 'parser')
+        b = res.fields[0]
+        emitted = ''.join(ms.pystr(ex.deref(op[2])) for op in b.ops if op[0] == 'token')
+        return text, cur.get('lexed'), emitted
+    res = e2.explore(r, W, entry, [])
+    for p in res:
+        r.cases += 1
+        if p.kind != 'ok':
+            if not any(f.key == 'panic' for f in r.findings): r.findings.append(Finding('panic', 'parser::parse panics: %s' % p.value, {}, False, 'not replayed'))
+            continue
+        text, lexed, emitted = p.value
+        r.nontrivial += 1
+        if lexed != text or emitted != text:
+            if r.findings: continue
+            nat = None
+            try:
+                rc, out, errt = build.run_driver('vreplay', json.dumps({'fn': 'parse_text', 'args': [text]}) + '\n')
+                tree = json.loads(out.splitlines()[0])['ok']['tree']
+                import re as _re
+                m_ = _re.search(r'FILE@(\d+)\.\.(\d+)', tree); nat = (int(m_.group(1)), int(m_.group(2))) if m_ else None
+            except Exception as e: nat = 'replay failed: %s' % str(e)[:100]
+            ok_ = isinstance(nat, tuple) and nat != (0, len(text.encode()))
+            r.findings.append(Finding('input-altered-before-lexing', 'parse(%r): the lexer receives %r and the tree contains %r' % (text, lexed, emitted), {'input': text, 'lexed': lexed, 'tree_text': emitted}, ok_, 'native parser::parse on the same text: root range %s, input has %d bytes' % (nat, len(text.encode()))))
+    r.samples = []
+
+def obligations_parse_entry(prefix):
+    return [Ob(prefix + '-parse-entry', 'parser::parse passes its input to the lexer unchanged; the tree covers it', ob_parse_entry, ('quick', 'thorough'), 1, {})]
